@@ -29,17 +29,60 @@ def bounded_task():
         r = OR(id=f"{PROP}.Bd.build.seeds_and_orders", status=REFUTED if hit else PROVED, kind="Bd", role="bounded", target="Project(...).correlate() + GraphManager.graph_all() (real)",
                desc="an 11-file project with four equally named procedures, a type with six extensions, a module with four submodules and a driver program, built under 5 values of "
                     "PYTHONHASHSEED and 4 file enumeration orders: identifiers (output file names), descendant listings and the DOT source of every graph must be identical",
-               bound=f"{c12.count_cases()} builds in separate interpreters; no byte comparison of rendered HTML, no parallel > 0", cases=c12.count_cases(), seconds=time.time() - t0, backend="enumeration")
+               bound=f"{c12.count_cases()} builds in separate interpreters; rendered pages are compared in C12.Bd.site.pages_under_hash_seeds; no parallel > 0", cases=c12.count_cases(), seconds=time.time() - t0, backend="enumeration")
         if hit:
             r.replay, r.witness = hit, hit["input"]
         return [r]
     return Task(f"{PROP}.Bd.build", PROP, "real build", run)
 
 
+def _templates():
+    res = ordering.template_obligations(PROP)
+    if any(r.status == REFUTED for r in res):
+        from bounded import c12
+        hit = c12.hashseed_pages()
+        for r in res:
+            if r.status == REFUTED:
+                r.replay = hit
+    return res
+
+
+def pages_task():
+    def run():
+        from bounded import c12
+        t0 = time.time()
+        hit = c12.hashseed_pages()
+        r = OR(id=f"{PROP}.Bd.site.pages_under_hash_seeds", status=REFUTED if hit else PROVED, kind="Bd", role="bounded", target="ford.main (full runs)",
+               desc="the 11-file project with USE statements of known and unknown modules, rendered under 5 values of PYTHONHASHSEED (graphs off, fixed creation date): every "
+                    "written page and the search index are byte-identical", bound="5 full runs", cases=5, seconds=time.time() - t0, backend="enumeration")
+        if hit:
+            r.replay, r.witness = hit, hit["input"]
+        return [r]
+    return Task(f"{PROP}.Bd.pages", PROP, "full runs", run)
+
+
+def rerun_task():
+    def run():
+        from bounded import c12
+        t0 = time.time()
+        hit = c12.rerun_cases()
+        r = OR(id=f"{PROP}.Bd.site.second_run_into_the_same_output", status=REFUTED if hit else PROVED, kind="Bd", role="bounded", target="ford.main (full runs)",
+               desc="a project whose source directory contains the output directory, run twice (a media directory holding a Fortran file with the user's own exclude_dir; "
+                    "the output directory given with -o): the second run writes the same set of files", bound=f"{len(c12.RERUN)} projects x 2 runs", cases=len(c12.RERUN),
+               seconds=time.time() - t0, backend="enumeration")
+        if hit:
+            r.replay, r.witness = hit, hit["input"]
+        return [r]
+    return Task(f"{PROP}.Bd.rerun", PROP, "full runs", run)
+
+
 def build(tier, seed):
     set_tier(tier)
     tasks = [Task(f"{PROP}.S.ordering", PROP, "unordered iteration", _with_replay(ordering.obligations)), Task(f"{PROP}.A.lt", PROP, "__lt__", lambda: ordering.lt_contracts(PROP)),
-             Task(f"{PROP}.S.structural", PROP, "toposort / writeout / allocation", _with_replay(ordering.structural)), bounded_task()]
+             Task(f"{PROP}.S.structural", PROP, "toposort / writeout / allocation", _with_replay(ordering.structural)),
+             Task(f"{PROP}.S.templates", PROP, "template loops over sets", _templates),
+             Task(f"{PROP}.S.stale_output", PROP, "output directory excluded from discovery", lambda: __import__("contracts.confine", fromlist=["x"]).output_dir_excluded(PROP, lambda: __import__("bounded.c12", fromlist=["x"]).rerun_cases())),
+             bounded_task(), rerun_task(), pages_task()]
     meta = {
         "trusted_base": TRUSTED_BASE + ["the ordering analysis of contracts/ordering.py: which expressions are unordered collections, which loop bodies are order-insensitive"],
         "assumptions": PYVC_ASSUMPTIONS + [
